@@ -64,6 +64,29 @@ class Enum:
         return 'Enum(%s,%r)' % (self.variant, self.fields)
 
 
+class Closure:
+    def __init__(self, loc, fields):
+        self.loc = loc
+        self.fields = fields
+
+
+class SliceIter:
+    def __init__(self, items):
+        self.items = list(items)
+
+
+class IterMutV:
+    """slice::IterMut over a list (stateful: only sound on non-forking paths)"""
+    def __init__(self, items):
+        self.items, self.pos = items, 0
+
+
+class Adaptor:
+    """iterator adaptor: kind in ('map', 'flat_map'), inner iterator, closure"""
+    def __init__(self, kind, inner, closure):
+        self.kind, self.inner, self.closure = kind, inner, closure
+
+
 def deref(v):
     while isinstance(v, Ref):
         v = v.get()
@@ -272,7 +295,7 @@ class Interp:
 
                 def g(bg=bg, fld=fld):
                     v = deref(bg())
-                    if isinstance(v, Enum):
+                    if isinstance(v, (Enum, Closure)):
                         v = v.fields
                     return v[fld]
 
@@ -313,6 +336,9 @@ class Interp:
             return Enum('None')
         if o.startswith('const '):
             raise Untranslatable('constant ' + o)
+        for k in ('no_retag ', 'copy ', 'move '):
+            if o.startswith(k):
+                o = o[len(k):]
         for k in ('copy ', 'move '):
             if o.startswith(k):
                 o = o[len(k):]
@@ -348,6 +374,10 @@ class Interp:
             return [self.operand(env, x) for x in split_args(rv[1:-1])]
         if rv.startswith('(') and rv.endswith(')') and ',' in rv and not rv.startswith('(*') and ': ' not in rv.split(',')[0]:
             return [self.operand(env, x) for x in split_args(rv[1:-1])]
+        m = re.fullmatch(r'\{closure@([^}]*)\}(?: \{ (.*) \})?', rv)
+        if m:
+            fields = [self.operand(env, x.split(':', 1)[1]) for x in split_args(m.group(2))] if m.group(2) else []
+            return Closure(m.group(1), fields)
         m = re.fullmatch(r'&(mut )?(.+)', rv)
         if m:
             g, s_ = self.parse_place(env, m.group(2))
@@ -392,17 +422,11 @@ class Interp:
             return [(pc, T.const(0))]
         if re.fullmatch(r'<\w+ as (num_traits::)?One>::one', c):
             return [(pc, T.const(1))]
-        if re.fullmatch(r'<&?[\w:]+<\w+> as PartialEq>::(eq|ne)', c):
-            def flat(v):
-                v = deref(v)
-                if isinstance(v, list):
-                    return [y for x in v for y in flat(x)]
-                return [v]
-            fa, fb = flat(d[0]), flat(d[1])
-            if len(fa) != len(fb):
-                raise Untranslatable('structural eq on different shapes')
-            eq = z3.And([x == y for x, y in zip(fa, fb)])
-            return [(pc, eq if c.endswith('eq') else z3.Not(eq))]
+        if re.fullmatch(r'<&?[\w:]+<[\w:<>, ]+> as PartialEq>::(eq|ne)', c):
+            eq = self.struct_eq(d[0], d[1])
+            if c.endswith('ne'):
+                eq = (not eq) if isinstance(eq, bool) else z3.Not(eq)
+            return [(pc, eq)]
         m = re.fullmatch(r'<\w+ as Partial(?:Ord|Eq)>::(\w+)', c)
         if m:
             op = {'gt': 'Gt', 'lt': 'Lt', 'ge': 'Ge', 'le': 'Le', 'eq': 'Eq', 'ne': 'Ne'}[m.group(1)]
@@ -426,6 +450,49 @@ class Interp:
             raise Untranslatable('Try::branch of ' + repr(e))
         if re.fullmatch(r'<Option<.*> as FromResidual<.*>>::from_residual', c):
             return [(pc, Enum('None'))]
+        if re.fullmatch(r'<Result<.*> as Try>::branch', c):
+            e = d[0]
+            if isinstance(e, Enum) and e.variant == 'Ok':
+                return [(pc, Enum('Continue', [e.fields[0]]))]
+            if isinstance(e, Enum) and e.variant == 'Err':
+                return [(pc, Enum('Break', [Enum('Err', [e.fields[0]])]))]
+            raise Untranslatable('Try::branch of ' + repr(e))
+        if re.fullmatch(r'<Result<.*> as FromResidual<.*>>::from_residual', c):
+            return [(pc, d[0])]
+        # ---- iterator adaptors over slices (modelled: std semantics are trusted, see DESIGN)
+        if re.fullmatch(r'core::slice::<impl \[.*\]>::iter', c) or re.fullmatch(r'geo_types::Multi\w+::<\w+>::iter', c):
+            v = d[0]
+            if isinstance(v, list) and len(v) == 1 and isinstance(deref(v[0]), list) and c.startswith('geo_types::Multi'):
+                v = deref(v[0])       # Multi* is a tuple struct around a Vec
+            if not isinstance(v, list):
+                raise Untranslatable('iter() over a non-list value')
+            return [(pc, SliceIter(v))]
+        if re.fullmatch(r'<&mut \[.*\] as IntoIterator>::into_iter', c):
+            if not isinstance(d[0], list):
+                raise Untranslatable('into_iter over a non-list value')
+            return [(pc, IterMutV(d[0]))]
+        if re.fullmatch(r'<std::slice::IterMut<.*> as Iterator>::next', c):
+            it = d[0]
+            if not isinstance(it, IterMutV):
+                raise Untranslatable('IterMut::next on an unmodelled value')
+            if it.pos < len(it.items):
+                k = it.pos
+                it.pos += 1
+                return [(pc, Enum('Some', [Ref(lambda it=it, k=k: it.items[k], lambda v, it=it, k=k: it.items.__setitem__(k, v))]))]
+            return [(pc, Enum('None'))]
+        m = re.fullmatch(r'<.* as Iterator>::(map|flat_map)::<.*>', c)
+        if m:
+            return [(pc, Adaptor(m.group(1), d[0], d[1]))]
+        m = re.fullmatch(r'<.* as Iterator>::collect::<(.*)>', c)
+        if m:
+            target = m.group(1)
+            outs = []
+            for pc2, items, err in self.drain(d[0], pc, depth, stop_on_err=target.startswith('Result<')):
+                if target.startswith('Result<'):
+                    outs.append((pc2, Enum('Err', [err]) if err is not None else Enum('Ok', [items])))
+                else:
+                    outs.append((pc2, items))
+            return outs
         if re.fullmatch(r'<impl Into<Coord<\w+>> as Into<geo_types::Coord<\w+>>>::into', c) or re.fullmatch(r'<geo_types::Point<\w+> as Into<geo_types::Coord<\w+>>>::into', c):
             v = d[0]
             if isinstance(v, list) and len(v) == 1 and isinstance(deref(v[0]), list):
@@ -441,6 +508,74 @@ class Interp:
             if re.fullmatch(pat, c):
                 return self.call_fn(self.mir.find(crate, fpat), argv, pc, depth + 1)
         raise Untranslatable('callee ' + c)
+
+    def struct_eq(self, a, b):
+        """derived PartialEq on aggregates / enums; anything else is refused, never guessed"""
+        a, b = deref(a), deref(b)
+        if isinstance(a, Enum) and isinstance(b, Enum):
+            if a.variant != b.variant or len(a.fields) != len(b.fields):
+                return False
+            parts = [self.struct_eq(x, y) for x, y in zip(a.fields, b.fields)]
+        elif isinstance(a, list) and isinstance(b, list):
+            if len(a) != len(b):
+                raise Untranslatable('structural eq on different shapes')
+            parts = [self.struct_eq(x, y) for x, y in zip(a, b)]
+        elif z3.is_expr(a) or z3.is_expr(b) or isinstance(a, (int, bool)) and isinstance(b, (int, bool)):
+            return a == b
+        else:
+            raise Untranslatable('structural eq on unmodelled values %r / %r' % (type(a).__name__, type(b).__name__))
+        if any(p is False for p in parts):
+            return False
+        parts = [p for p in parts if p is not True]
+        return z3.And(parts) if parts else True
+
+    def call_closure(self, clo, args, pc, depth):
+        clo = deref(clo)
+        if not isinstance(clo, Closure):
+            raise Untranslatable('call of a non-closure value')
+        pat = r'[^\n(]*\{closure#\d+\}'
+        for crate in self.mir.text:
+            for mm in re.finditer(r'^fn (' + pat + r')\(_1: &?(?:mut )?\{closure@' + re.escape(clo.loc) + r'\}', self.mir.text[crate], re.M):
+                fn = self.mir.find(crate, re.escape(mm.group(1)))
+                return self.call_fn(fn, [Ref(lambda: clo)] + args, pc, depth + 1)
+        raise Untranslatable('closure body not found for ' + clo.loc)
+
+    def drain(self, it, pc, depth, stop_on_err=False):
+        """all (path condition, [items], first_error) outcomes of exhausting iterator `it`"""
+        it = deref(it)
+        if isinstance(it, SliceIter):
+            return [(pc, [Ref(lambda x=x: x) for x in it.items], None)]
+        if not isinstance(it, Adaptor):
+            raise Untranslatable('collect() of an unmodelled iterator')
+        outs = []
+        for pc0, inner_items, err0 in self.drain(it.inner, pc, depth):
+            states = [(pc0, [], None)]
+            for x in inner_items:
+                nxt = []
+                for pc1, acc, err in states:
+                    if err is not None:
+                        nxt.append((pc1, acc, err))
+                        continue
+                    for pc2, y in self.call_closure(it.closure, [x], pc1, depth):
+                        y = deref(y)
+                        if it.kind == 'flat_map':
+                            # closure returns an IntoIterator: Option / Result yield 0 or 1 item
+                            if isinstance(y, Enum) and y.variant in ('Ok', 'Some'):
+                                nxt.append((pc2, acc + [y.fields[0]], None))
+                            elif isinstance(y, Enum) and y.variant in ('Err', 'None'):
+                                nxt.append((pc2, acc, None))
+                            else:
+                                raise Untranslatable('flat_map over an unmodelled IntoIterator')
+                        elif stop_on_err and isinstance(y, Enum) and y.variant in ('Ok', 'Err'):
+                            if y.variant == 'Ok':
+                                nxt.append((pc2, acc + [y.fields[0]], None))
+                            else:
+                                nxt.append((pc2, acc, y.fields[0]))
+                        else:
+                            nxt.append((pc2, acc + [y], None))
+                states = nxt
+            outs += states
+        return outs
 
     # ---- execution
     def run(self, fn, env, pc, depth):
@@ -475,7 +610,8 @@ class Interp:
                     v = self.operand(env, m.group(1))
                     arms = split_args(m.group(2))
                     if isinstance(v, tuple) and v[0] == 'discr':
-                        order = {'None': 0, 'Some': 1, 'Continue': 0, 'Break': 1, 'Ok': 0, 'Err': 1}
+                        order = {'None': 0, 'Some': 1, 'Continue': 0, 'Break': 1, 'Ok': 0, 'Err': 1,
+                                 'Default': 0, 'Reversed': 1, 'Clockwise': 0, 'CounterClockwise': 1}
                         k = order[v[1]]
                         tgt = None
                         for arm in arms:
@@ -510,10 +646,26 @@ class Interp:
                         self.obligations.append((pc, c, line[:70]))
                     work.append((m.group(3), env, pc))
                     break
-                m = re.fullmatch(r'(.+?) = (.+?)\((.*)\) -> \[return: (bb\d+).*\]', line)
-                if m and ('::' in m.group(2) or m.group(2).startswith('<')) and not m.group(2).startswith(('Option::<', 'Result::<')) \
-                        or (m and re.fullmatch(r'Option::<.*>::unwrap', m.group(2))):
-                    dst, callee, args, tgt = m.groups()
+                m = None
+                mm = re.fullmatch(r'(.+?) = (.+) -> \[return: (bb\d+).*\]', line)
+                if mm and mm.group(2).endswith(')'):
+                    # callee(args): args = the last balanced parenthesis group (callee paths may
+                    # themselves contain parentheses, e.g. `impl Fn(Coord<T>) -> Coord<NT>`)
+                    body = mm.group(2)
+                    dpt, k = 0, len(body) - 1
+                    while k >= 0:
+                        if body[k] == ')':
+                            dpt += 1
+                        elif body[k] == '(':
+                            dpt -= 1
+                            if dpt == 0:
+                                break
+                        k -= 1
+                    if k > 0:
+                        m = (mm.group(1), body[:k], body[k + 1:-1], mm.group(3))
+                if m and ('::' in m[1] or m[1].startswith('<')) and not m[1].startswith(('Option::<', 'Result::<')) \
+                        or (m and re.fullmatch(r'Option::<.*>::unwrap', m[1])):
+                    dst, callee, args, tgt = m
                     argv = [self.operand(env, a) for a in split_args(args)]
                     outs = self.resolve(callee, argv, pc, depth)
                     for pc2, val in outs:
